@@ -349,6 +349,93 @@ def propagate_new_aliases(tree: ast.Module, module: str, known_locals: dict[str,
                 if changed:
                     break
 
+    def _conditional_alias(fn, qn: str):
+        # a *new* local `x = base.attr... if base else None` (bound once): "x is None" is "not base or base.attr is None"; where x is used as an object it is base.attr
+        # (x is used as an object only where it was tested to be there: otherwise both spellings raise AttributeError on None)
+        known = set(known_locals.get(f'{module}::{qn}', []))
+        stores = _stores(fn)
+        params = {a.arg for a in fn.args.posonlyargs + fn.args.args + fn.args.kwonlyargs}
+        nested_names = {x.id for n in _own(fn) if isinstance(n, FuncNode + (ast.Lambda, ast.ClassDef)) for x in ast.walk(n) if isinstance(x, ast.Name)}
+        for blk in _blocks(fn):
+            for i, st in enumerate(blk):
+                if not (isinstance(st, ast.Assign) and len(st.targets) == 1 and isinstance(st.targets[0], ast.Name) and isinstance(st.value, ast.IfExp)):
+                    continue
+                nm, v = st.targets[0].id, st.value
+                if nm in known or nm in params or nm in nested_names or len(stores.get(nm, [])) != 1:
+                    continue
+                if isinstance(v.orelse, ast.Constant) and v.orelse.value is None and isinstance(v.test, ast.Name):
+                    base, chain = v.test.id, v.body
+                elif isinstance(v.body, ast.Constant) and v.body.value is None and isinstance(v.test, ast.UnaryOp) and isinstance(v.test.op, ast.Not) and isinstance(v.test.operand, ast.Name):
+                    base, chain = v.test.operand.id, v.orelse
+                else:
+                    continue
+                root = chain
+                while isinstance(root, ast.Attribute):
+                    root = root.value
+                if not (isinstance(chain, ast.Attribute) and isinstance(root, ast.Name) and root.id == base) or len(stores.get(base, [])) > 1:
+                    continue
+
+                def there(neg: bool):
+                    b = ast.Name(id=base, ctx=ast.Load())
+                    t = ast.BoolOp(op=ast.And(), values=[b, ast.Compare(left=copy.deepcopy(chain), ops=[ast.IsNot()], comparators=[ast.Constant(value=None)])])
+                    return ast.UnaryOp(op=ast.Not(), operand=t) if neg else t
+
+                class _R(ast.NodeTransformer):
+                    def visit_Compare(self, node):  # noqa: N802
+                        if len(node.ops) == 1 and isinstance(node.left, ast.Name) and node.left.id == nm and isinstance(node.ops[0], (ast.Is, ast.IsNot)) \
+                                and isinstance(node.comparators[0], ast.Constant) and node.comparators[0].value is None:
+                            return ast.copy_location(there(isinstance(node.ops[0], ast.Is)), node)
+                        return self.generic_visit(node)
+
+                    def visit_Name(self, node):  # noqa: N802
+                        if node.id == nm and isinstance(node.ctx, ast.Load):
+                            return ast.copy_location(copy.deepcopy(chain), node)
+                        return node
+
+                    def visit_FunctionDef(self, node):  # noqa: N802
+                        return node
+
+                    visit_AsyncFunctionDef = visit_Lambda = visit_FunctionDef  # noqa: N815
+
+                for k in range(i + 1, len(blk)):
+                    blk[k] = _R().visit(blk[k])
+                blk[i] = ast.copy_location(ast.Pass(), st)
+                log.append(f'{module}:{qn} new conditional alias `{nm} = {ast.unparse(v)[:50]}` written out at its uses')
+                ast.fix_missing_locations(fn)
+                return _conditional_alias(fn, qn)
+
+    def _tuple_carrier(fn, qn: str):
+        # a *new* local that carries a tuple from where it is built to the one place where it is taken apart: `t = (a, b, c)` ... `x, y, z = t` (x, y, z new, bound once)
+        # is `x = a; y = b; z = c` where t was bound (the elements are evaluated there either way; nothing else reads t, x, y or z in between)
+        known = set(known_locals.get(f'{module}::{qn}', []))
+        stores = _stores(fn)
+        loads: dict[str, list[ast.Name]] = {}
+        for n in ast.walk(fn):
+            if isinstance(n, ast.Name) and isinstance(n.ctx, ast.Load):
+                loads.setdefault(n.id, []).append(n)
+        for blk in _blocks(fn):
+            for i, st in enumerate(blk):
+                if not (isinstance(st, ast.Assign) and len(st.targets) == 1 and isinstance(st.targets[0], ast.Name) and isinstance(st.value, ast.Tuple)):
+                    continue
+                t = st.targets[0].id
+                if t in known or len(stores.get(t, [])) != 1 or len(loads.get(t, [])) != 1:
+                    continue
+                use = loads[t][0]
+                unpack = next((n for n in ast.walk(fn) if isinstance(n, ast.Assign) and n.value is use and len(n.targets) == 1 and isinstance(n.targets[0], ast.Tuple)), None)
+                if unpack is None or len(unpack.targets[0].elts) != len(st.value.elts):
+                    continue
+                names = [x.id for x in unpack.targets[0].elts if isinstance(x, ast.Name)]
+                if len(names) != len(st.value.elts) or any(len(stores.get(nm, [])) != 1 for nm in names):
+                    continue
+                blk[i:i + 1] = [ast.copy_location(ast.Assign(targets=[ast.Name(id=nm, ctx=ast.Store())], value=v, type_comment=None), st) for nm, v in zip(names, st.value.elts)]
+                for b2 in _blocks(fn):
+                    for k, s2 in enumerate(b2):
+                        if s2 is unpack:
+                            b2[k] = ast.copy_location(ast.Pass(), unpack)
+                log.append(f'{module}:{qn} new tuple `{t}` that is only taken apart again (`{ast.unparse(unpack)[:50]}`): its elements are bound where it was built')
+                ast.fix_missing_locations(fn)
+                return _tuple_carrier(fn, qn)
+
     def _filtered_loops(fn, qn: str):
         # a *new* local that holds a filtered list and is only iterated, by the `for` right after it, whose body does not suspend:
         #   todo = [x for x in IT if P] ; for y in todo: BODY      ->      for y in IT: if P[y/x]: BODY
@@ -405,6 +492,8 @@ def propagate_new_aliases(tree: ast.Module, module: str, known_locals: dict[str,
                             yield from all_levels(n_, f'{q_}.{n_.name}')
 
                 for n, nq in all_levels(st, qn):
+                    _conditional_alias(n, nq)
+                    _tuple_carrier(n, nq)
                     _temps(n, nq)
                     _pure_locals(n, nq)
                     _filtered_loops(n, nq)
